@@ -71,7 +71,7 @@ SInit == d \in Terms
 SNext == UNCHANGED vars
 SSpec == SInit /\ [][SNext]_vars
 
-Dump == PrintT(ToJson([k |-> "ser", d |-> d, out |-> Encode(d, NoFloats)]))
+Dump == PrintT(ToJson([k |-> "ser", d |-> d, out |-> Encode(d, NoFloats), de |-> DeValue(d, NoFloats)]))
 
 \* the builder never produces duplicate keys, and key order is first-insertion order
 RECURSIVE NoDupKeys(_)
